@@ -35,11 +35,54 @@ def sort_pushes(ctx):
     for conds, loops, eff in ev.out:
         if eff[0] != "emit" or eff[1] not in ev.effect_calls:
             continue
-        nest, mapping = leaves.loop_nest(loops)
+        nest, mapping, flt = leaves.loop_nest_filtered(loops)
         cv = lambda t: leaves.strip_acc(leaves.replace(t, mapping))
-        outs.append({"conds": [(cv(c), pol) for c, pol in conds], "nest": [leaves.strip_acc(n) for n in nest], "raw_loops": len(loops), "callee": eff[1],
-                     "args": tuple(cv(a) for a in eff[2])})
+        flt = [f_ for f_ in flt if not (isinstance(f_[0], tuple) and f_[0][:2] == ("call", "Option::is_some"))]     # `filter_map` keeps what `_per_arm` keeps
+        outs.append(_per_arm({"conds": [(cv(c), pol) for c, pol in list(conds) + flt], "nest": [leaves.strip_acc(n) for n in nest], "raw_loops": len(loops), "callee": eff[1],
+                              "args": tuple(cv(a) for a in eff[2])}))
     return b, value, outs
+
+
+def _per_arm(o):
+    """the pushed value taken apart by the cases of the walked element: `filter_map(|e| match e { Ok(e) if is_file => Some(Ok(path)), Ok(_) =>
+    None, Err(x) => Some(Err(x)) })` followed by `path?` pushes `path` of an Ok file entry, leaves with the error, and skips the rest - the
+    same as `let e = e?; if is_file { push(path) }`.  Ok-projections of the walked element are written as the element after `?`."""
+    from .. import sym, leaves, comp
+    if len(o["args"]) < 2 or not o["nest"]:
+        return o
+    raw = o["args"][1]
+    ELEM = ("each", o["nest"][-1])
+    try:
+        lv = leaves.leaves(leaves.lift(comp.decide_literals(comp.case_of_case(leaves.lift_proj(raw)))))
+    except Exception:
+        return o
+    if len(lv) <= 1:
+        return o
+    vals, errs = [], []
+    for ts, x in lv:
+        x = comp.decide_literals(x)
+        if any(isinstance(y, tuple) and y[:1] == ("proj",) and y[1] == ("ctor", "Option::None", ()) for y in sym.subterms(x)):
+            continue                    # not yielded by the filter_map
+        if isinstance(x, tuple) and x[:1] == ("try",) and isinstance(x[1], tuple) and x[1][:2] == ("ctor", "Result::Err"):
+            errs.append((ts, x))
+            continue
+        vals.append((ts, x))
+    if len(vals) != 1:
+        return o
+
+    def conv(t):
+        if not isinstance(t, tuple):
+            return t
+        if t[:1] == ("proj",) and len(t) == 3 and t[1] == ELEM and t[2][:1] == (("Result::Ok", "0"),):
+            return ("proj", ("try", ELEM), t[2][1:]) if t[2][1:] else ("try", ELEM)
+        return tuple(conv(x) for x in t)
+    ts, x = vals[0]
+    newpath = conv(x)
+    o2 = dict(o)
+    o2["args"] = (leaves.replace(o["args"][0], {raw: newpath}), newpath) + tuple(o["args"][2:])
+    o2["facts"] = [conv(t) for t in ts if t != ("is", ELEM, "Result::Ok")]
+    o2["error_exit"] = bool(errs) and all(ELEM in set(sym.subterms(e_[1])) for e_ in errs)
+    return o2
 
 
 def rule_ext_table(ctx):
@@ -55,6 +98,9 @@ def rule_ext_table(ctx):
         raise AnalysisGap("Files::sort: expected exactly one write into the buckets, found %d" % len(writes))
     o = writes[0]
     recv, path = o["args"][0], o["args"][1] if len(o["args"]) > 1 else None
+    from .. import comp as _comp
+    _comp.use(ctx.facts)
+    recv = _comp.decide_literals(_comp.case_of_case(recv))      # a table in two steps (extension -> role -> bucket) is one table
     lv = leaves.leaves(recv)
     table, default, bases, subjects = {}, [], set(), set()
     for ts, v in lv:
@@ -107,9 +153,12 @@ def rule_ext_table(ctx):
                 return None
             out += [t[1] if t[0] == "survived" else t for t in r]
         return sorted(set(out), key=_lv.stable_key)
-    ctx.add("TAB-EXT", "files-only", facts_of([c_[:2] for c_ in o["conds"]]) == [("cond", _lv.norm(("call", "FileType::is_file", (("call", "DirEntry::file_type", (entry,)),))), True)], site,
+    got_facts = facts_of([c_[:2] for c_ in o["conds"]])
+    if "facts" in o and got_facts is not None:
+        got_facts = sorted(set(got_facts) | {_lv.norm(t_) if False else t_ for t_ in o["facts"]}, key=_lv.stable_key)
+    ctx.add("TAB-EXT", "files-only", got_facts == [("cond", _lv.norm(("call", "FileType::is_file", (("call", "DirEntry::file_type", (entry,)),))), True)], site,
             "the only condition on bucketing an entry is that it is a regular file: %s" % [sym.pretty(c)[:100] for c, _ in o["conds"]])
-    ctx.add("FLOW-ERR", "Files::sort:walkdir-error", entry in set(sym.subterms(path)), site, "walkdir errors are propagated with `?` before the entry is used")
+    ctx.add("FLOW-ERR", "Files::sort:walkdir-error", entry in set(sym.subterms(path)) and o.get("error_exit", True), site, "walkdir errors are propagated with `?` before the entry is used")
     ctx.count("ext_arms", len(lv))
 
 
@@ -125,7 +174,7 @@ def rule_det3(ctx):
     site = ctx.site(b)
     if not outs:
         raise AnalysisGap("Files::sort: no write into the buckets found")
-    hir_loops = len(hq.for_loops(b["body"])) + len([c for c in hq.calls(b["body"], method="for_each")])
+    hir_loops = len(hq.for_loops(b["body"])) + len([c for m_ in ("for_each", "fold", "try_fold", "try_for_each") for c in hq.calls(b["body"], method=m_)])
     nests = {tuple(o["nest"]) for o in outs}
     ctx.add("DET-3", "single-pass", len(nests) == 1 and all(o["raw_loops"] == hir_loops for o in outs), site,
             "the paths are bucketed in one pass over the argument list (loops in Files::sort: %d, all of them enclose the write); a second pass lets "
